@@ -108,6 +108,15 @@ def judgeC15 : P Verdict := do
     if cmpAff (Aff.removeZeroRows p) q != .same then return .diverge "remove_zero_rows differs from the model"
   | "remove_rows" =>
     if cmpAff (Aff.removeRows p idxs) q != .same then return .diverge "remove_rows differs from the model"
+  | "remove_duplicate_rows" =>
+    -- the model compares the normalised rows exactly ("positive multiple of an earlier row"); the code compares float
+    -- quotients with `relative_eq`, which may keep an exact duplicate whose quotients were rounded differently
+    let m := Poly.removeDuplicateRows (mkRat 1 (2 ^ 52)) p
+    if cmpAff m q != .same then
+      if isSubseq (rowsOf m) (rowsOf q) then
+        tag "kept-exact-duplicate"
+        return .inexact "remove_duplicate_rows kept a row that is an exact positive multiple of an earlier row (rounded normalisation)"
+      return .diverge "remove_duplicate_rows differs from the model (a row was dropped that is not a positive multiple of an earlier row)"
   | "remove_redundant" =>
     let eps : Q := mkRat 1 (2 ^ 52)
     let (r, os) := Poly.removeRedundant eps lpOracle p ⟨log, [], 0, 0⟩
